@@ -25,26 +25,26 @@ def session_interp(prog, effects=True):
         return I.ret(st, UNIT)
     ov(r'NodeSessionState::tcp_send_auth$', tcp_send)
 
-    @I.model(r'^<(std::string::)?String as Deref>::deref$|^<ActorRef<.*> as Deref>::deref$', 'Deref of String / ActorRef: same place')
+    @I.model(r'^<(std::string::)?String as Deref>::deref$|^<(\w+::)*ActorRef<.*> as Deref>::deref$', 'Deref of String / ActorRef: same place')
     def m_deref(I, st, f, args, fr):
         return I.ret(st, args[0])
 
-    @I.model(r'^ActorRef::<.*>::cast$|(^|::)<impl ActorRef<.*>>::cast$', 'ActorRef::cast: recorded')
+    @I.model(r'(^|::)ActorRef::<.*>::cast$|(^|::)<impl (\w+::)*ActorRef<.*>>::cast$', 'ActorRef::cast: recorded')
     def m_cast(I, st, f, args, fr):
         st.emit('CAST', models_std.deref_val(I, st, args[0]), args[1])
         return I.ret(st, models_std.ok(UNIT))
 
-    @I.model(r'^ActorRef::<.*>::call::<|(^|::)<impl ActorRef<.*>>::call::<', 'ActorRef::call: a future with any result (one Pending poll allowed)')
+    @I.model(r'(^|::)ActorRef::<.*>::call::<|(^|::)<impl (\w+::)*ActorRef<.*>>::call::<', 'ActorRef::call: a future with any result (one Pending poll allowed)')
     def m_call(I, st, f, args, fr):
         st.emit('CALL', models_std.deref_val(I, st, args[0]))
         return I.ret(st, Opaque('callfut', info={'n': fresh_id()}))
 
-    @I.model(r'^ActorRef::<.*>::stop$|^ActorCell::stop$', 'ActorCell::stop: recorded')
+    @I.model(r'(^|::)ActorRef::<.*>::stop$|(^|::)ActorCell::stop$', 'ActorCell::stop: recorded')
     def m_stop(I, st, f, args, fr):
         st.emit('STOP', models_std.deref_val(I, st, args[0]))
         return I.ret(st, UNIT)
 
-    @I.model(r'^ActorRef::<.*>::get_id$|^ActorCell::get_id$', 'get_id')
+    @I.model(r'(^|::)ActorRef::<.*>::get_id$|(^|::)ActorCell::get_id$', 'get_id')
     def m_id(I, st, f, args, fr):
         return I.ret(st, Opaque('ActorId', ident=('id-of', getattr(models_std.deref_val(I, st, args[0]), 'ident', None))))
 
@@ -76,7 +76,7 @@ def session_interp(prog, effects=True):
         st.emit('SPAWN', f)
         return I.ret(st, Opaque('JoinHandle'))
 
-    @I.model(r' as Into<RpcReplyPort<.*>>>::into$', 'RpcReplyPort::from(sender [, timeout])')
+    @I.model(r' as Into<(\w+::)*RpcReplyPort<.*>>>::into$', 'RpcReplyPort::from(sender [, timeout])')
     def m_into_port(I, st, f, args, fr):
         return I.ret(st, Opaque('RpcReplyPort', ident='reply-port'))
 
